@@ -372,6 +372,81 @@ func genSize(r *rand.Rand) string {
 // vn2h: the post code of a var/header extractor storing into variable vn
 func vn2h(vn string) string { return "h" + vn }
 
+// genModSpec: a var/header mapping value <Header>/<modifier>/… (written with '/' for '|')
+func genModSpec(r *rand.Rand) string {
+	var ms []string
+	for jj, kk := 0, 1+r.Intn(3); jj < kk; jj++ {
+		ms = append(ms, pick(r, "lower", "upper", fmt.Sprintf("substr(%d)", r.Intn(11)-5), fmt.Sprintf("substr(%d,%d)", r.Intn(11)-5, r.Intn(13)-6),
+			fmt.Sprintf("substr(%d,0)", r.Intn(7)-3), "replace(x,Y)", "replace(H,)", "replace(0,zz)", "replace(Resp,r)", "substr(2,2)", "substr(-1)", "substr(1,-1)", "substr(9)", "substr(3,1)"))
+	}
+	if r.Intn(14) == 0 {
+		ms = append(ms, pick(r, "nosuch", "substr()", "substr(x)", "substr(1,2,3)", "replace(a)", "lower(", "substr(1,y)"))
+	}
+	return pick(r, "X-Tok", "x-tok", "X-Kind", "X-Kind", "X-None") + "/" + strings.Join(ms, "/")
+}
+
+// genGunPost: focused cases for pandora's own postprocessors — request a captures header values through modifier
+// chains and/or asserts (status, body texts, header texts, size at and around the real body length), request b renders
+// what a captured, c follows; one scenario a|b|c, two or three shots, a target that mostly answers normally
+func genGunPost(r *rand.Rand) string {
+	var post []string
+	var refs []string
+	for j, k := 0, 1+r.Intn(3); j < k; j++ {
+		switch r.Intn(8) {
+		case 0, 1:
+			vn := fmt.Sprintf("h%d", j)
+			post = append(post, "h"+vn+"="+genModSpec(r))
+			refs = append(refs, "pa."+vn)
+		case 2:
+			post = append(post, genSize(r))
+		case 3:
+			var cs []string
+			if r.Intn(2) == 0 {
+				cs = append(cs, pick(r, "s200", "s200", "s404", "s0"))
+			}
+			for jj, kk := 0, r.Intn(3); jj < kk; jj++ {
+				cs = append(cs, pick(r, "bT", "btok", "bn", "bZZ", "b0x", "b%7D"))
+			}
+			if r.Intn(2) == 0 {
+				cs = append(cs, pick(r, "yX-Kind~Resp", "yX-Kind~Resp-k", "yx-kind~-s", "yContent-Type~json", "yX-Tok~H", "yX-None~a", "yX-Tok~Q", "yX-Tok~0x"))
+			}
+			if r.Intn(2) == 0 || len(cs) == 0 {
+				cs = append(cs, genSize(r))
+			}
+			post = append(post, "A"+strings.Join(cs, "+"))
+		case 4, 5:
+			// several entries in one extractor: all of them must resolve (jsonpath) / absent headers are skipped (header)
+			if r.Intn(2) == 0 {
+				post = append(post, "J"+fmt.Sprintf("j%d=tok", j)+"&"+pick(r, "m=n", "m=zz", "m=zz", "m=tok"))
+				refs = append(refs, fmt.Sprintf("pa.j%d", j), "pa.m")
+			} else {
+				a, b := genModSpec(r), genModSpec(r)
+				switch r.Intn(4) {
+				case 0:
+					a = "X-None/" + strings.SplitN(a, "/", 2)[1]
+				case 1:
+					b = "X-None/" + strings.SplitN(b, "/", 2)[1]
+				}
+				post = append(post, "H"+fmt.Sprintf("g%d=", j)+a+"&"+fmt.Sprintf("k%d=", j)+b)
+				refs = append(refs, fmt.Sprintf("pa.g%d", j), fmt.Sprintf("pa.k%d", j))
+			}
+		default:
+			post = append(post, "jtok=tok")
+			refs = append(refs, "pa.tok")
+		}
+	}
+	if len(refs) == 0 {
+		refs = append(refs, "clit")
+	}
+	shots := 2 + r.Intn(2)
+	var o []string
+	for j := 0; j < shots*3; j++ {
+		o = append(o, pick(r, "k", "k", "k", "k", "k", "s404", "e", "b", "t", "s201"))
+	}
+	return fmt.Sprintf("kind=gun inst=1 shots=%d L=2 rq=a:%s::::%s;b:G::%s::;c:G:::: sc=s1:1:0:a|b|c or=%s",
+		shots, pick(r, "G", "P"), strings.Join(post, "|"), strings.Join(refs, "|"), strings.Join(o, ","))
+}
+
 // ---------------------------------------------------------------- kind=first
 
 func genFirst(r *rand.Rand, mode string, thorough bool) string {
@@ -447,9 +522,9 @@ func genExhaustive() []string {
 }
 
 func gen(r *rand.Rand, tier string) []string {
-	nProv, nGun1, nGun4, nCtl, nPar := 800, 340, 170, 12, 4
+	nProv, nGun1, nGun4, nCtl, nPar, nPost := 800, 340, 170, 12, 4, 160
 	if tier == "thorough" {
-		nProv, nGun1, nGun4, nCtl, nPar = 16000, 6000, 3000, 300, 40
+		nProv, nGun1, nGun4, nCtl, nPar, nPost = 16000, 6000, 3000, 300, 40, 3000
 	}
 	var out []string
 	for i := 0; i < nCtl; i++ {
@@ -466,6 +541,9 @@ func gen(r *rand.Rand, tier string) []string {
 	}
 	for i := 0; i < nGun4; i++ {
 		out = append(out, genGun(r, 4))
+	}
+	for i := 0; i < nPost; i++ {
+		out = append(out, genGunPost(r))
 	}
 	if tier == "thorough" {
 		out = append(out, genExhaustive()...)
